@@ -16,7 +16,12 @@ import (
 
 // OpenIndex opens an index file previously created using the IndexWriter.
 func OpenIndex(file string, opts ...IndexOption) (*Index, error) {
-	db, err := bbolt.Open(file, 0644, &bbolt.Options{OpenFile: openfile.OpenFile(openfile.Options{FailIfFileDoesntExist: true})})
+	// An index is never written to once it exists, so it is opened read-only.
+	// bbolt then takes a shared instead of an exclusive file lock: several
+	// Index objects (e.g. opened with different options through the sql driver,
+	// or by several processes) can use the same file, where a second exclusive
+	// open would block forever.
+	db, err := bbolt.Open(file, 0644, &bbolt.Options{ReadOnly: true, OpenFile: openfile.OpenFile(openfile.Options{FailIfFileDoesntExist: true})})
 	if err != nil {
 		return nil, err
 	}
